@@ -147,6 +147,8 @@ def mutants(frame):
 
     def paths(v, p=()):
         if isinstance(v, dict):
+            if p:
+                yield (p, v)       # the object itself (replaced by null / removed below)
             for k, x in v.items():
                 if not p and k in ENVELOPE:
                     continue
@@ -326,7 +328,8 @@ def run(tier, seed):
         # log append / replay of the parsed ones
         want = [res["results"][i]["again"] for i in appended_idx]
         if [canon(x) for x in want] != [canon(x) for x in res["replayed"]] or res["raw_lines"] != len(appended_idx):
-            v.violation(f"{kind}: {len(appended_idx)} frames appended, {res['raw_lines']} lines in the file, replay returns {len(res['replayed'])} frames / different content",
+            v.violation(f"{kind}: {len(appended_idx)} frames appended, {res['raw_lines']} lines in the file, replay returns {len(res['replayed'])} frames / different content"
+                        + (f" (replay of the log fails: {res['replay_error']}; the payload variants in this file: {sorted(set('/'.join(map(str, l)) for l, _ in batch if l != 'orig'))[:12]})" if res.get("replay_error") else ""),
                         {"engine": "roundtrip", "kind": kind, "guard": "log"})
     v.cov["frames_round_tripped"] = nparsed
     v.cov["streams_compared"] = nstreams
